@@ -135,7 +135,7 @@ struct Run {
       if (n && exp.bound && !x.docs[(size_t)td]->overflowed()) {
         AJ::JsonVariantConst v; x.at(o.t, false, [&](auto&& p) { v = p.template as<AJ::JsonVariantConst>(); });
         MVal y = extract(v);
-        if (!exp.resync && x.last_code == 0) { CmpOpt co; co.mode = Cmp::Tol; std::string why; if (!mv_equal(*n, y, co, &why)) viol("deserialized-value-differs", why); }
+        if (!exp.resync && x.last_code == 0) { CmpOpt co; co.mode = Cmp::Tol; co.tol_rel = kUseDouble ? 1e-6 : 1e-5; std::string why; if (!mv_equal(*n, y, co, &why)) viol("deserialized-value-differs", why); }
         m.put(*n, y); m.sweep();
       }
     }
@@ -197,7 +197,7 @@ struct Run {
 
 static HistOpt scenario_opt(Rng& r) {
   HistOpt ho;
-  ho.ndocs = (int)r.range(1, 2); ho.nrefs = 4; ho.key_pool = (int)r.range(2, 6); ho.max_nodes = 60; ho.alias_assign = false;
+  ho.ndocs = (int)r.range(1, 2); ho.nrefs = 4; ho.key_pool = (int)r.range(2, 6); ho.max_nodes = 60; ho.alias_assign = false; ho.float32_only = !kUseDouble;
   return ho;
 }
 
